@@ -573,6 +573,11 @@ fn fixed_list(ctx: &Ctx, rep: &mut Report) {
         }
     }
     add("comment-lines-only", "; nothing but comments\n".repeat(1_000_000));
+    // `.break` directives on different addresses (whatever records them grows, and may switch
+    // strategy when it does)
+    for count in [17usize, 18, 33, 100, 5_000, 60_000] {
+        add(&format!("{count}-breaks-on-distinct-addresses"), format!("{}halt\n", "add r0 r0 #1\n.break\n".repeat(count)));
+    }
     let mut n = 0u64;
     for (kind, text) in texts {
         n += 1;
@@ -606,7 +611,7 @@ impl Prop for C05 {
     fn rule(&self) -> &'static str {
         "Texts: (a) valid generated programs with 1-4 token-level mutations (delete, duplicate, swap, replace/insert a token of any kind from a ~400-entry pool incl. directives, strings, edge literals, junk and numbers at the limits of every integer width 2^7..2^128 in every spelling), abutting, character insertion/deletion and truncation; \
          (b) token soup from the pool; (c) arbitrary unicode strings; (d) multi-byte / combining / NUL characters at every character position of 24 representative statements (enumerated); (e) every numeric edge token in every operand / label position of 19 statement frames (enumerated); (f) a fixed list of lone prefixes, directives in operand position and size extremes \
-         (.blkw xFFFF + statements, label distances 0x7FFE..0xFFFD in both directions, 70,000 statements, 66,000 labels, 70,000-character strings/tokens, runs of 400,000 and 1,200,000 comment lines / blank lines / blanks / commas / colons / `.break` directives / labels). The size extremes are also judged through the real binary (`lace check`, unoptimised debug build; release too in thorough), where stack depth and frame sizes are the user's. thorough adds libFuzzer campaigns (fuzz/asm_total). \
+         (.blkw xFFFF + statements, label distances 0x7FFE..0xFFFD in both directions, 70,000 statements, 66,000 labels, 70,000-character strings/tokens, runs of 400,000 and 1,200,000 comment lines / blank lines / blanks / commas / colons / `.break` directives / labels, 17 .. 60,000 `.break` directives on distinct addresses). The size extremes are also judged through the real binary (`lace check`, unoptimised debug build; release too in thorough), where stack depth and frame sizes are the user's. thorough adds libFuzzer campaigns (fuzz/asm_total). \
          (g) characters that can start no token (NUL, control characters, symbols outside the grammar, BOM, zero-width space, non-ASCII letters) alone on a line at every line boundary of three valid programs - these must end in a diagnostic, never in an image. (h) every sequence of up to 4 (thorough: 5) statements over {.blkw xFFFF, x8000, x7FFF, x1, x0, .stringz of 2 and of 32,768 words, .fill, an instruction} whose sizes add up to 65,535 words or more: the capacity of the address space crossed by every kind of statement after every other. Oracle: no panic in lex/parse/backpatch/emit/render under debug assertions + overflow checks (and release in thorough); every diagnostic label span denotes a substring of the source (in bounds, on character boundaries); the diagnostic is non-empty. \
          Non-trivial: at least one mutation changed the text and it contains a token. Distinct = hash(text, flag)."
     }
